@@ -297,7 +297,40 @@ impl<'tcx, 'a> Cx<'tcx, 'a> {
                     None
                 }
             }
-            Const::Ty(_, _) => None,
+            Const::Ty(_, ct) => {
+                // valtree constants (string/byte-string patterns of `match`, const generics)
+                if let Some(v) = ct.try_to_value() {
+                    if let Some(bytes) = v.try_to_raw_bytes(self.tcx) {
+                        match std::str::from_utf8(bytes) {
+                            Ok(s) if matches!(ty.kind(), ty::Ref(_, inner, _) if inner.is_str()) => j.s("str", s),
+                            _ => {
+                                let mut hex = String::new();
+                                for b in bytes.iter().take(4096) {
+                                    let _ = write!(hex, "{:02x}", b);
+                                }
+                                j.s("bytes", &hex);
+                            }
+                        }
+                    } else if let Some(si) = v.try_to_leaf() {
+                        let size = si.size();
+                        let bits = si.to_bits(size);
+                        match ty.kind() {
+                            ty::Bool => j.b("bool", bits != 0),
+                            ty::Char => {
+                                if let Some(ch) = char::from_u32(bits as u32) {
+                                    j.s("char", &ch.to_string());
+                                }
+                            }
+                            _ => {
+                                if bits <= i128::MAX as u128 {
+                                    j.n("int", bits as i128);
+                                }
+                            }
+                        }
+                    }
+                }
+                None
+            }
         };
         if let Some(v) = val {
             match v {
